@@ -75,6 +75,7 @@ static inline int64_t spec_cur_i(struct chan *c)
 
 int64_t g_ss_t, g_ss_i, g_tt_t;     /* pre-state: what the subsystem / task-type channels show */
 int64_t w_vt, w_vi;
+int64_t w_ss_t, w_ss_i, w_tt_t;   /* replay: what the subsystem / task-type channels show */
 WITNESS(select_tr);
 WITNESS(select_idle);
 
@@ -83,7 +84,7 @@ WITNESS(select_idle);
 int c_select_tr(struct mux *mux, struct value value, struct mux_input **input)
 __CPROVER_requires(MUX2(mux) && MUX2_CHANS(mux) && __CPROVER_is_fresh(input, sizeof(*input)))
 __CPROVER_requires(g_ss_t == spec_cur_t(mux->inputs[0].chan) && g_ss_i == spec_cur_i(mux->inputs[0].chan) && g_tt_t == spec_cur_t(mux->inputs[1].chan))
-__CPROVER_requires(WBIND(select_tr, w_vt == value.type && w_vi == value.i) && DIAG_PRE)
+__CPROVER_requires(WBIND(select_tr, w_vt == value.type && w_vi == value.i && w_ss_t == g_ss_t && w_ss_i == g_ss_i && w_tt_t == g_tt_t) && DIAG_PRE)
 __CPROVER_assigns(*input, DIAG_FRAME)
 __CPROVER_ensures(RV == 0 && g_err == __CPROVER_old(g_err))
 /* task type iff in a task body with a known type; else the subsystem iff it is non-null; else nothing (default shown) */
